@@ -535,10 +535,15 @@ def _pl_at_maturity(ctx, block, hedge, tag, desc, grad, exact):
         if not ok:
             continue
         ctx.tick(world.N)
-        scale = float(spot.abs().max()) * spot.size(-1) * max(1.0, float(held.nan_to_num().abs().max())) + 1.0
-        tol = 0.0 if exact else hw.tol(world.dtype) * scale
-        good = ((got - expected).abs() <= tol + (0 if exact else hw.tol(world.dtype)) * expected.abs()) | (
-            got.isnan() & expected.isnan()) | (got == expected)
+        # sums: equal up to the rounding of the sums involved (hw.pl_rounding_bound; the reduction order
+        # depends on the memory layout of the hedge tensor); a trade at maturity costs >= c S |d unit| >= 1e-4
+        slack = hw.pl_rounding_bound(spot, held, cost, None if what == "portfolio" else payoff)
+        if not exact:
+            scale = float(spot.abs().max()) * spot.size(-1) * max(1.0, float(held.nan_to_num().abs().max())) + 1.0
+            slack = slack + hw.tol(world.dtype) * scale
+        if what == "loss":
+            slack = hw.loss_rounding_bound(slack, world.N, world.dtype, expected)
+        good = ((got - expected).abs() <= slack) | (got.isnan() & expected.isnan()) | (got == expected)
         if tuple(got.shape) != tuple(expected.shape) or not good.all():
             ctx.violation(site, f"cost_at_maturity:{tag}",
                           f"compute_{what} is not the P&L of the position held over the last step: a trade (and "
@@ -667,7 +672,8 @@ def run(ctx):
              "column on every leaf, compute_pl/portfolio/loss == P&L of the held position (cost > 0). Applicability "
              "of (feature | model) x derivative x underlier is decided dynamically: whatever evaluates without "
              "raising is in scope (others are counted as not applicable). hedge_reuse: one Hedger object on trees "
-             "A, B, A, A of the same shape: same oracles on every call + equality with a fresh hedger. Non-trivial = nodes below which the quantity takes a different value later on some leaf "
+             "A, B, A, A of the same shape: same oracles on every call + equality with a fresh hedger. Worlds include "
+             "derivatives whose own maturity is shorter / longer than the registered time grid. Non-trivial = nodes below which the quantity takes a different value later on some leaf "
              "(peeking would be observable) + leaves whose position moves before maturity")
     ctx.assume("models that couple paths (batch normalisation) are outside the property and are not generated")
     ctx.assume("user-supplied pricers of listed derivatives are represented by the documentation's Black-Scholes "
@@ -735,6 +741,18 @@ def run(ctx):
                     hblocks.append({"world": wh, "model": m, "probe": False})
                 elif hw.model_shape_ok(m, wh) and hv == "default" and Ts == 3:
                     hblocks.append({"world": wh, "model": m, "probe": True})
+    # the derivative's own maturity is shorter / longer than the registered grid (underlier shared with a
+    # derivative of another maturity, or simulated for another horizon)
+    for ul, kind, mat_k in itertools.product(("brownian", "heston"),
+                                             ("european", "lookback") if ctx.quick else market.OPTION_KINDS,
+                                             (max(1, T - 3), T + 1)):
+        w = {"ul": ul, "kind": kind, "call": True, "T": T, "As": A[:3] if ctx.quick else A,
+             "Av": [1 / 64, 1 / 16] if ul == "heston" else None, "dtype": "float64", "listed": None, "mat_k": mat_k}
+        fblocks.append({"world": w, "features": feature_specs(w["As"], None), "conformance": False})
+        wh = dict(w, hedge="default")
+        for m in model_specs(1, None):
+            if hw.model_ok(m, wh):
+                hblocks.append({"world": wh, "model": m, "probe": False})
     # every hedge block: positive transaction cost; autograd ON (the mode of fit / compute_loss; model
     # parameters require grad) next to autograd OFF (the mode of price); P&L and loss at maturity
     trainable = ("linear", "mlp", "user")
